@@ -58,6 +58,16 @@ class Function:
         self.lineno = node.lineno
         self.file = os.path.join(SRC, module + ".py")
 
+    def store_names(self):
+        """the function's local names in order of their first binding in the source text (parameters excluded)"""
+        params = {a.arg for a in self.node.args.args + self.node.args.kwonlyargs + self.node.args.posonlyargs}
+        out = []
+        for n in sorted((x for x in ast.walk(self.node) if isinstance(x, ast.Name) and isinstance(x.ctx, ast.Store)),
+                        key=lambda x: (x.lineno, x.col_offset)):
+            if n.id not in params and n.id not in out:
+                out.append(n.id)
+        return out
+
     @property
     def body(self):
         b = self.node.body
